@@ -152,6 +152,9 @@ def c15_jobs(ctx):
             if prof == "dev" and i == NSH - 1:
                 env["RUSTEMO_TRACE"] = "1"  # log! bodies are evaluated (debug build only)
             out.append(dict(worker="c15", prop="C15", args=args, profile=prof, env=env))
+        # GLR on 20000..200000-token inputs with a 2 MiB stack (Rust's default for spawned threads); see c15.rs (f)
+        args = ["--seed", ctx["seed"], "--shard", NSH, "--nshards", NSH + 1, "--tier", ctx["tier"], "--n", 1, "--max-s", (900 if th else 100)]
+        out.append(dict(worker="c15", prop="C15", args=args, profile=prof, env={"VH_C15_DEEP": "1", "VH_STACK_MB": "2"}))
     return out
 
 
@@ -160,7 +163,7 @@ PLANS["C15"] = dict(
     rule="one evaluation = one parse call (LR or GLR, default lexer or one of three hostile user lexers) under catch_unwind with a logical clock that counts every table query, recogniser call and lexer call; "
          "verdict: panic (any payload) or more than 20000*(bytes+1) steps = violation, process abort = violation, wall-clock watchdog = inconclusive. Grammars: every .rustemo file shipped in the repository, "
          "the literature corpus, random BNF (+ Layout families), lexically ambiguous terminal sets; inputs: sentences and mutations, 30 fixed Unicode/control-character noise strings, literals cut in the middle, "
-         "unterminated comments, 10^5-byte inputs, 20000-token deep recursions. Debug (overflow checks, debug_assert, one shard with RUSTEMO_TRACE=1) and release builds. "
+         "unterminated comments, 10^5-byte inputs, 20000-token deep recursions; one worker per build runs the GLR parser over 20000-200000-token inputs (valid, and invalid at the end) on a 2 MiB stack. Debug (overflow checks, debug_assert, one shard with RUSTEMO_TRACE=1) and release builds. "
          "non-trivial = distinct (grammar, algorithm, lexer mode, outcome kind)",
     assumptions=["hostile lexers keep the token kind inside the generated TokenKind range and never return zero-width non-STOP tokens (outside the statement of C15)",
                  "fence of listed findings lr-epsilon-loop / lr-reduction-cycle-cyclic-grammar: LR grammars of this workload carry no meta-data, conflicts are resolved by prefer_shifts only, and cyclic grammars (reference analysis) are only compiled for GLR",
